@@ -28,7 +28,7 @@ ArityOK(f, n) ==
     [] f \in OneMath \cup {"dayofweek", "abs", "empty"} -> n = 1
     [] f = "timespan" -> n \in {1, 3, 4, 5}
     [] f = "date" -> n >= 1 /\ n <= 7
-    [] f \in {"min", "max", "sum"} -> n >= 2
+    [] f \in {"min", "max", "sum"} -> n >= 2     \* (a single argument: see OneArgOpen)
     [] f = "if" -> n = 3
     [] f = "choose" -> n >= 3
     [] f = "contains" -> n = 2
@@ -39,6 +39,7 @@ Floor8(x) == 8 * (IF x >= 0 THEN x \div 8 ELSE -((-x + 7) \div 8))
 Ceil8(x) == -Floor8(-x)
 Round8(x) == IF x >= 0 THEN Floor8(x + 4) ELSE -Floor8(-x + 4)       \* half away from zero
 Trunc8(x) == 8 * TruncDiv(x, 8)
+RoundEven8(x) == LET fl == Floor8(x) IN IF x - fl # 4 THEN (IF x - fl < 4 THEN fl ELSE fl + 8) ELSE (IF (fl \div 8) % 2 = 0 THEN fl ELSE fl + 8)
 RECURSIVE ISqrt(_, _)
 ISqrt(x, r) == IF r * r > x THEN r - 1 ELSE ISqrt(x, r + 1)
 PerfectSquare(x) == x >= 0 /\ x <= 1000000 /\ ISqrt(x, 0) * ISqrt(x, 0) = x
@@ -101,8 +102,10 @@ ValueFails(e) ==    \* the call returned a value: is it what the name denotes?
          LET x == AsDouble8(e.mgr, a[1]) IN
          \* (which numeric type carries the rounded value is not stated; that it is always the same one is checked by FixedFails)
          F(r.t \in Numeric, "a rounding function does not return a number")
-         \o (IF x[1] THEN F(Exact(r) /\ Num8(r) = (CASE f \in {"ceil", "ceiling"} -> Ceil8(x[2]) [] f = "floor" -> Floor8(x[2])
-                                                      [] f = "round" -> Round8(x[2]) [] OTHER -> Trunc8(x[2])), "rounding function gives the wrong value") ELSE "")
+         \* (Round at an exact half: away from zero, or to the even neighbour - IEEE knows both, the property names neither)
+         \o (IF x[1] THEN F(Exact(r) /\ (Num8(r) = (CASE f \in {"ceil", "ceiling"} -> Ceil8(x[2]) [] f = "floor" -> Floor8(x[2])
+                                                       [] f = "round" -> Round8(x[2]) [] OTHER -> Trunc8(x[2]))
+                                         \/ (f = "round" /\ Num8(r) = RoundEven8(x[2]))), "rounding function gives the wrong value") ELSE "")
     [] f \in OneMath -> LET x == AsDouble8(e.mgr, a[1])  an == IF x[1] THEN Anchor(f, x[2]) ELSE <<FALSE, 0>> IN
          F(r.t = "Double", "an IEEE function does not return a Double")
          \o (IF an[1] THEN F(Exact(r) /\ Num8(r) = an[2], "an IEEE function is wrong at a point where its value is exact") ELSE "")
@@ -161,13 +164,16 @@ FnFails(e) ==
   IF ~e.found THEN "a default function is not found under a different letter case of its name; "
   ELSE IF e.outcome = "panic" THEN "the function crashed; "
   ELSE IF e.outcome \in {"nil", "both"} THEN "the function returned neither exactly a value nor exactly an error (a nil result without error); "
+  \* Min / Max / Sum "over all arguments": whether ONE argument is a valid number of arguments is not stated - an error, or that argument
+  ELSE IF e.canon \in {"min", "max", "sum"} /\ Len(e.args) = 1
+       THEN F(e.outcome = "error" \/ (e.outcome = "value" /\ (e.hit = 1 \/ (e.r.t = e.args[1].t /\ e.r.s = e.args[1].s))), "Min / Max / Sum of one argument is neither an error nor that argument")
   ELSE IF ~ArityOK(e.canon, Len(e.args)) THEN F(e.outcome = "error", "a wrong argument count did not yield an error")
   ELSE IF MustError(e) THEN F(e.outcome = "error", "an inapplicable argument did not yield an error")
   ELSE IF e.outcome = "error" THEN F(MayError(e), "a valid call yielded an error")
   ELSE ValueFails(e)
     \o F(e.argsame, "the function rewrote the caller's argument list")
     \o F(e.again = "same", "a second call with the same arguments returns something else after the caller changed the first result in place (results are shared)")
-    \o (IF e.hostmath # "none" THEN F(e.r.s = e.hostmath, "the function does not return what the host's math library gives for the converted argument") ELSE "")
+    \o (IF e.hostmath # "none" THEN F(e.r.s = e.hostmath \/ ("hostmath2" \in DOMAIN e /\ e.r.s = e.hostmath2), "the function does not return what the host's math library gives for the converted argument") ELSE "")
     \o (IF e.canon = "date" /\ e.hostsec # "none" THEN F(e.r.t = "DateTime" /\ e.r.u = e.hostsec, "Date is not the host calendar's date-time for these components in the host's zone") ELSE "")
     \o (IF e.canon \in {"ticks", "now", "rnd", "random", "null"} THEN ""      \* clock / random / NULL is a keyword of the language
         ELSE F(e.eo = "value" /\ e.er.t = e.r.t /\ e.er.s = e.r.s, "calling the function through an expression gives a different result than calling it directly"))
